@@ -279,6 +279,23 @@ func roundTrip(what string, recs []seqio.GenBank, how ...int) *Violation {
 			return v
 		}
 	}
+	// the same text with CRLF line ends (as a file that went through another system has) holds the same records; all
+	// of them are collected before any is looked at
+	if !strings.Contains(s1, "\r") {
+		cr, errText, pi := readGenBank(crlf(s1), how...)
+		if pi != nil {
+			return panicViolation("reading back "+what+" with CRLF line ends", pi)
+		}
+		if errText != "" || len(cr) != len(recs) {
+			return viol("rejected", "%s: with CRLF line ends gts reads %d of its %d records: %s", what, len(cr), len(recs), errText)
+		}
+		// (header and qualifier values of a CRLF file are outside this property; the framing and the residues are not)
+		for i := range recs {
+			if !bytes.Equal(recs[i].Bytes(), cr[i].Bytes()) || gts.Len(recs[i]) != gts.Len(cr[i]) {
+				return viol("residues", "%s record %d: with CRLF line ends the %d residues read back as %d (first difference at %d)", what, i, len(recs[i].Bytes()), len(cr[i].Bytes()), firstDiff(string(recs[i].Bytes()), string(cr[i].Bytes())))
+			}
+		}
+	}
 	seqs2 := make([]gts.Sequence, len(back))
 	for i, r := range back {
 		seqs2[i] = r
